@@ -90,7 +90,9 @@ def job_conv(res, kind, ip, h, frames, seed=0):
         except UB as e: st = 'ub ' + str(e)[:200]
         res.absorb(m)
         if st != 'ret': cex(f'{label}: {st}'); return
-        if m.taken or m.pending: res.inc(f'{label}: data-dependent control flow'); return
+        if m.taken or m.pending:
+            ok, ref = path_consistency(res, HARNESS, 'h_conv', spec, insyms, 3, Fraction(1, 10 ** 9), label, lambda xv, why: cex(why, xv))
+            continue
         if r != ny: cex(f'{label}: produced {r} samples instead of len*L/M = {ny}'); return
         rows = plin_matrix(res, m, outs[3][:ny], insyms, label)
         if rows is None: return
@@ -133,7 +135,8 @@ def job_resample(res, p, q, nx, h=None):
     except UB as e: st = 'ub ' + str(e)[:200]
     res.absorb(m)
     if st != 'ret': cex(f'{label}: {st}', key=f'resample:{st.split()[0]}:{p1}/{q1}'); return
-    if m.taken or m.pending: res.inc(f'{label}: data-dependent control flow'); return
+    if m.taken or m.pending:
+        path_consistency(res, HARNESS, fn, spec, insyms, -1, Fraction(1, 10 ** 9), label, lambda xv, why: cex(why, xv)); return
     if r != ny: cex(f"{label}: returned {r} samples, expected p'*ceil(len/q') = {ny}", key='resample:length'); return
     res.ob(True, 'ground', f"{label}: output length p'*ceil(len/q') = {ny}")
     ys = outs[-1][:ny]
@@ -155,7 +158,23 @@ def job_resample(res, p, q, nx, h=None):
         xv = [0.0] * nx; xv[wj] = 1.0
         cex(f'{label}: impulse at input {wj} is centred {float(worst):.2f} output samples away from {wj}*p/q', xv, wj, key=f'resample:align:{"rateconv" if p1 > 1 and q1 > 1 else "int" if q1 == 1 else "dec"}')
 
-JOBFNS = {'conv': job_conv, 'resample': job_resample}
+def job_resample_len(res, p, q, lens):
+    """resample(x, p, q) for every input length in lens (all residues modulo q'): returns p'*ceil(len/q') samples and does not throw; control flow must not depend on the data (inputs symbolic)"""
+    mod, so = load(HARNESS); g = math.gcd(p, q); p1, q1 = p // g, q // g
+    for nx in lens:
+        ny = p1 * (-(-nx // q1)); label = f'resample(x[{nx}], {p}, {q})'
+        spec = [('pf64', [fsym(f'x{i}') for i in range(nx)]), ('i32', nx), ('i32', p), ('i32', q), ('pf64', [0.0] * (ny + 8))]
+        m = Machine(mod, max_steps=400_000_000)
+        try: r, outs, _ = sym_call(m, 'h_resample', spec, 'i32'); st = 'ret'
+        except Throw: st = 'throw'; r = None
+        except UB as e: st = 'ub ' + str(e)[:200]; r = None
+        res.absorb(m)
+        ok = st == 'ret' and r == ny and not m.taken and not m.ub_found
+        sol = z3.Solver(); sol.add(z3.Not(z3.BoolVal(bool(ok))))
+        if timed_check(sol, res) == z3.unsat: res.ob(True, 'PATH', f"{label}: one path, returns p'*ceil(len/q') = {ny} samples")
+        else: confirm(res, PID, HARNESS, 'h_resample', [('pf64', [math.sin(0.4 * i) + 0.1 for i in range(nx)])] + spec[1:-1] + [('pf64', [0.0] * (ny + 8))], 'i32', 'resample', ORACLES, f'resample:length:{p1}/{q1}', f'{label}: {st}' + (f', returned {r}' if r is not None else ''), extra={'impulse': None}, timeout=60)
+
+JOBFNS = {'resample_len': job_resample_len, 'conv': job_conv, 'resample': job_resample}
 
 def selftest(st):
     calls = []; rnd = random.Random(3)
@@ -188,6 +207,8 @@ def main(tier, seed):
     for (p, q_, nx) in ([(1, 1, 5), (3, 3, 4), (2, 1, 12), (1, 2, 25), (3, 2, 24), (2, 3, 30), (5, 2, 20), (1, 2, 7)] if q else
                         [(1, 1, 5), (3, 3, 4), (2, 1, 12), (3, 1, 10), (1, 2, 25), (1, 3, 40), (3, 2, 24), (2, 3, 30), (5, 2, 20), (4, 3, 30), (3, 4, 40), (1, 2, 7), (2, 3, 31), (6, 4, 24)]):
         jobs.append((f'resample {p}/{q_} nx={nx}', 'resample', dict(p=p, q=q_, nx=nx), 3000))
+    for (p, q_) in ([(3, 2), (2, 3), (3, 4), (4, 3), (5, 2), (5, 3), (2, 5)] if q else [(3, 2), (2, 3), (3, 4), (4, 3), (5, 2), (5, 3), (2, 5), (5, 4), (4, 5), (7, 3), (3, 7), (6, 4), (8, 6), (160, 147)]):
+        jobs.append((f'resample {p}/{q_} every length', 'resample_len', dict(p=p, q=q_, lens=list(range(1, (2 * q_ + 2) if q_ < 100 else 12)) + [3 * q_ + 1 if q_ < 100 else 150]), 3000))
     jobs.append(('resample 2/1 custom h', 'resample', dict(p=2, q=1, nx=10, h=symh(13)), 1500))
     jobs.sort(key=lambda j: -(len(j[2].get('h') or [0] * 60) + j[2].get('nx', 0)))
     return run_property(PID, tier, HARNESS, jobs, JOBFNS,
